@@ -182,6 +182,11 @@ class Exec(object):
         return self.lookup(p, e.id)
 
     def e_Attribute(self, p, e):
+        if isinstance(e.value, ast.Name) and e.value.id == 'GambaTools':
+            # module-level configuration: an arbitrary (universally quantified) value, fixed during the call
+            t = {'pda_epsilon_closure_max_iterations': INT, 'enable_logging': BOOL}.get(e.attr)
+            if t is None: raise Unsupported('GambaTools.%s' % e.attr)
+            return SV(t, z3.Const('GambaTools_' + e.attr, sort_of(t)))
         o = self.ev(p, e.value)
         if o.t.kind == 'rec':
             if e.attr not in RECORDS[o.t.args[0]]: raise Unsupported('field %s of %s' % (e.attr, o.t))
@@ -346,6 +351,12 @@ class Exec(object):
         raise Unsupported('cannot use %s as %s' % (v.t, t))
 
     def e_BinOp(self, p, e):
+        if isinstance(e.op, ast.Add) and isinstance(e.right, ast.List):
+            a = self.ev(p, e.left)
+            if a.t == WORD:
+                z = a.z
+                for x in e.right.elts: z = Word.snoc(z, self.coerce_atom(self.ev(p, x)).z)
+                return SV(WORD, z)
         a = self.ev(p, e.left); b = self.ev(p, e.right); op = e.op
         if a.t == INT and b.t == INT:
             if isinstance(op, ast.Add): return SV(INT, a.z + b.z)
@@ -362,6 +373,10 @@ class Exec(object):
             if a.t == WORD and b.t == WORD: return SV(WORD, T.app(a.z, b.z))
             if a.t.kind == 'list' and a.t == b.t: return self.list_concat(p, a, b)
         raise Unsupported('binary op %s on %s,%s (line %d)' % (type(op).__name__, a.t, b.t, e.lineno))
+
+    def coerce_atom(self, v):
+        if v.t != ATOM: raise Unsupported('stack symbol of type %s' % v.t)
+        return v
 
     def list_concat(self, p, a, b):
         r = fresh('cat', a.t); i = fresh_z('i', z3.IntSort())
@@ -501,8 +516,9 @@ class Exec(object):
                 return self.iterable(p, e.args[0])
             if isinstance(f, ast.Attribute) and isinstance(f.value, ast.Name) and f.value.id == 'itertools':
                 return self.itertools_iter(p, f.attr, e)
-            if isinstance(f, ast.Name) and self.spec_mode and f.id in ('words', 'atoms', 'ints', 'regexps', 'allwords'):
+            if isinstance(f, ast.Name) and self.spec_mode and f.id in ('words', 'atoms', 'ints', 'regexps', 'allwords', 'configs'):
                 if f.id == 'allwords': return ('typed', WORD, lambda x: BoolVal(True))
+                if f.id == 'configs': return ('typed', REC('PDAState'), lambda x: BoolVal(True))
                 if f.id == 'words':
                     sg = self.ev(p, e.args[0]); return ('typed', WORD, lambda x: T.over(sg.z, x.z))
                 if f.id == 'atoms': return ('typed', ATOM, lambda x: BoolVal(True))
@@ -970,9 +986,9 @@ class Exec(object):
     def construct(self, p, cls, e):
         flds = list(RECORDS[cls])
         vals = {}
-        for f_, a in zip(flds, e.args): vals[f_] = self.ev(p, a)
+        for f_, a in zip(flds, e.args): vals[f_] = self.ev_hint(p, a, RECORDS[cls][f_])
         for kw in e.keywords:
-            if kw.arg in flds: vals[kw.arg] = self.ev(p, kw.value)
+            if kw.arg in flds: vals[kw.arg] = self.ev_hint(p, kw.value, RECORDS[cls][kw.arg])
         check = True
         for kw in e.keywords:
             if kw.arg == 'check_validity' and isinstance(kw.value, ast.Constant): check = bool(kw.value.value)
@@ -1141,6 +1157,7 @@ class Exec(object):
     def empty_of(self, t, value):
         """`set()`, `set([])`, `{}`, `[]`, `defaultdict(...)`, `dict()` with a declared type"""
         if not self.is_empty_literal(value): return None
+        if t == WORD and isinstance(value, ast.List): return SV(WORD, Word.nil)
         if t.kind == 'set': return empty_set(t.args[0])
         if t.kind == 'map': return mk_map(t, z3.K(sort_of(t.args[0]), BoolVal(False)), fresh_z('val0', z3.ArraySort(sort_of(t.args[0]), sort_of(t.args[1]))))
         if t.kind == 'list': return mk_list(t, IntVal(0), fresh_z('arr0', z3.ArraySort(z3.IntSort(), sort_of(t.args[0]))))
